@@ -39,8 +39,9 @@ def run_case(case, rng):
             tgt = rng.choice(up) if up else max(lst, key=lambda x: x[1])[0]   # keeps the MDP proper
             sp.P[key] = [(tgt, 1.0)]
             sp.kind[key] = "dict"
+        costs = rng.choice([[-1, -1, -2], [0, 0, -1, -2]])       # with free moves some non-absorbing states are worth exactly 0
         for key in sp.R:
-            sp.R[key] = float(rng.choice([-1, -1, -2]))
+            sp.R[key] = float(rng.choice(costs))
     else:
         sp = G.random_spec(rng, "proper", n_max=n_max, allow_implicit=False,
                            reward_scale=rng.choice([1.0, 1.0, 1.0, 30.0]))
@@ -68,6 +69,10 @@ def run_case(case, rng):
                 sp.kind[key] = "multiset"
         sp.meta["multiset_outcomes"] = True
     mdp = Bd.build(sp, rep)
+    persistent = tie_family and rng.random() < 0.3
+    if persistent:
+        # actions(s) hands out the SAME list object every time (as QuickMDP(actions=[...]) does): compared before/after
+        mdp = Bd.PersistentActionsMDP(sp)
     gamma = sp.gamma
     arr = Rf.Arr(sp)
     pinned = arr.flag.copy()
@@ -80,12 +85,14 @@ def run_case(case, rng):
     hk, h = make_heuristic(rng, arr, sol, gamma)
     if tie_family and rng.random() < 0.7:
         hk, h = "zero", {s: 0.0 for s in arr.S}
+        if rng.random() < 0.4:
+            hk, h = "const+2", {s: 2.0 for s in arr.S}       # admissible (V* <= 0), but non-zero where the value is 0
     margin = rng.choice([1e-1, 1e-2, 1e-2, 1e-4] * 2 + [0.0, 1.0])     # and the end point 0 / a coarse whole-number margin
     seed = rng.choice([0, 1, 7, rng.randrange(2 ** 31)])
     rao = rng.random() < 0.5
     init_abs = [s for s, p in sp.init if s in sp.flag]
     case.family = "proper"
-    case.params = dict(rep=rep, gamma=gamma, n=len(sp.states), heuristic=hk, margin=margin, seed=seed,
+    case.params = dict(rep=("persistent_action_lists" if persistent else rep), gamma=gamma, n=len(sp.states), heuristic=hk, margin=margin, seed=seed,
                        randomize_action_order=rao, absorbing_initial=len(init_abs), tie_family=tie_family)
     Vstar = {s: float(sol.V[i]) for i, s in enumerate(arr.S)}
     tol = 1e-9 * scale
@@ -116,6 +123,10 @@ def run_case(case, rng):
     if tie_family:
         rao = rng.random() < 0.8
     extra_kw = dict(iterations=300) if margin == 0.0 else {}    # exact convergence may never come: bounded number of trials
+    if tie_family and margin > 0:
+        # termination restated as bounded progress: a deterministic acyclic problem with <= 12 states needs a few dozen
+        # trials; 3000 is two orders of magnitude more
+        extra_kw["iterations"] = 3000
     if rng.random() < 0.2:
         extra_kw["max_trial_length"] = rng.choice([1, 2, 5])     # trials cut short: more of them, same guarantees
     case.params["max_trial_length"] = extra_kw.get("max_trial_length")
@@ -162,6 +173,15 @@ def run_case(case, rng):
     case.sample = dict(spec=sp.describe(), config=case.params, trials=stats["trials"], timesteps=stats["steps"],
                        touched_states=len(res.V), initial_value=float(res.initial_value))
 
+    if persistent:
+        now = {s_: tuple(v_) for s_, v_ in mdp.action_lists.items()}
+        case.count("problem_action_lists_compared")
+        case.check(now == mdp.action_snapshot, "planner-mutated-the-problem's-own-action-lists",
+                   lambda: f"actions(s) before {mdp.action_snapshot!r} after {now!r}", randomize_action_order=rao)
+    if tie_family and margin > 0 and getattr(res, "converged", None) is False:
+        case.fail("initial-states-not-labelled-solved-within-3000-trials",
+                  f"deterministic acyclic problem with {len(arr.S)} states, margin {margin}, heuristic {hk}", heuristic=hk)
+        return
     if margin == 0.0 and getattr(res, "converged", None) is False:
         # ran out of trials before every residual was exactly 0: only the upper-bound clause (checked online) applies
         case.count("not_converged_at_margin_0")
